@@ -116,3 +116,60 @@ def tabulate(escape_parsable, unescape_parsable):
         if unescape_parsable(body) != s and len(bad_rt) < 5:
             bad_rt.append((c, body, unescape_parsable(body)))
     return bad_model, bad_rt, n
+
+
+# ---- the "emitted as-is" branch of escape_parsable, DERIVED from its source ----------------------------------------
+ESCAPED_EXPR = r"""'`' + s.encode('unicode_escape').decode('utf-8').replace('`', '\\`') + '`'"""
+
+
+def raw_branch(src_path):
+    """escape_parsable must be `if COND: return <param> else/then return <escaped expression>` (either order, COND
+    possibly negated).  Returns (function node, source segment, condition node under which the parameter is returned
+    unchanged).  Only the escaped expression is pinned (the codec is C code and cannot be derived); COND is translated."""
+    import ast
+    node, seg, _ = strlang.load_function(src_path, 'escape_parsable')
+    param = node.args.args[0].arg
+    body = [st for st in node.body if not (isinstance(st, ast.Expr) and isinstance(st.value, ast.Constant))]
+    if not body or not isinstance(body[0], ast.If):
+        raise HarnessError('escape_parsable is no longer an if/else over a condition on its argument')
+    iff = body[0]
+    then = iff.body
+    els = iff.orelse if iff.orelse else body[1:]
+    if len(then) != 1 or len(els) != 1 or not isinstance(then[0], ast.Return) or not isinstance(els[0], ast.Return):
+        raise HarnessError('escape_parsable branches are no longer single return statements')
+
+    def is_raw(r):
+        return isinstance(r.value, ast.Name) and r.value.id == param
+
+    class _Ren(ast.NodeTransformer):
+        def visit_Name(self, n):
+            return ast.Name(id='s', ctx=n.ctx) if n.id == param else n
+
+    ref = ast.dump(ast.parse(ESCAPED_EXPR, mode='eval').body)
+
+    def is_escaped(r):
+        import copy
+        return r.value is not None and ast.dump(_Ren().visit(copy.deepcopy(r.value))) == ref
+
+    if is_raw(then[0]) and is_escaped(els[0]):
+        cond = iff.test
+    elif is_raw(els[0]) and is_escaped(then[0]):
+        cond = ast.UnaryOp(op=ast.Not(), operand=iff.test)
+    else:
+        raise HarnessError('escape_parsable: the escaped branch is no longer the modelled expression ' + ESCAPED_EXPR
+                           + ' (or no branch returns the argument unchanged)')
+    return node, seg, cond
+
+
+def raw_language(node, cond, module_globals, red=None):
+    """z3 language of the names escape_parsable returns unchanged: the truth set of COND, translated by
+    vt.strlang.PredTranslator (re.match / fullmatch / search with Python's ^ $ semantics, str predicates).
+    Returns (language, charsets)."""
+    from vt import strlang_ext as sx
+    pt = strlang.PredTranslator(node, module_globals)
+    if red is not None:
+        pt.rt = sx.ReducedReTranslator(red)
+        pt.charsets = pt.rt.charsets
+    lang = pt.truthy(cond)
+    # `$` adds an optional final newline as a literal that strlang does not record as a character set
+    return lang, list(pt.charsets) + [[(10, 10)]]
